@@ -24,9 +24,13 @@ MsgOrder == CHOOSE f \in [1..Cardinality(Msgs) -> Msgs] : \A i, j \in 1..Cardina
 (* is something to lose.                                                                  *)
 MsgOK(m)      == ~Guided \/ m = MsgOrder[(Len(wire) % Cardinality(Msgs)) + 1]
 Recent(i)     == ~Guided \/ i > Len(wire) - 3
+(* attacks are interspersed, not dominant; the newest packet can be attacked in flight, i.e.  *)
+(* before it was delivered (its tampered copy may then reach the destination first)          *)
+MayTamper(i)  == ~Guided \/ (3 * Cardinality({j \in 1..Len(wire) : wire[j].t # ""}) < Len(wire)
+                             /\ (seen = 1..Len(wire) \/ (i = Len(wire) /\ seen = 1..(Len(wire) - 1))))
 MaySend       == ~Guided \/ seen = 1..Len(wire)
 MayDeliver(i, to) == ~Guided \/ (i \notin seen /\ (to = wire[i].dst \/ i = Len(wire))) \/ (Recent(i) /\ to = wire[i].dst)
-HasState(n)   == ~Guided \/ (Len(wire) % 4 = 3 /\ \E p \in Node : sess[n][p].sid # 0 \/ chal[n][p].cid # 0 \/ got[n][p].cid # 0)
+HasState(n)   == ~Guided \/ (Len(wire) % 6 = 5 /\ \E p \in Node : sess[n][p].sid # 0 \/ chal[n][p].cid # 0 \/ got[n][p].cid # 0)
 TalksTo(n, p) == ~Guided \/ knows[n][p]          \* a node only addresses nodes whose record it has
 
 MCNext ==
@@ -36,10 +40,10 @@ MCNext ==
         /\ hist' = Append(hist, A("hs", n, p, m, Len(wire) + 1, "", IF got[n][p].rs THEN "norecord" ELSE "record")) /\ UNCHANGED seen
   \/ \E n, p \in Senders : Len(wire) < MaxWire /\ MaySend /\ SendWhoareyou(n, p)
         /\ hist' = Append(hist, A("way", n, p, "", Len(wire) + 1, "", IF knows[n][p] THEN "known" ELSE "unknownnode")) /\ UNCHANGED seen
-  \/ \E i \in 1..Len(wire), t \in {"iv", "ver", "nonce", "src", "idn", "sig", "ct"} : Len(wire) < MaxWire /\ Recent(i) /\ MaySend /\ Tamper(i, t)
+  \/ \E i \in 1..Len(wire), t \in {"iv", "ver", "nonce", "src", "idn", "sig", "ct"} : Len(wire) < MaxWire /\ Recent(i) /\ MayTamper(i) /\ Tamper(i, t)
         /\ hist' = Append(hist, A("tamper", "", "", "", i, t, "")) /\ UNCHANGED seen
   \/ \E i \in 1..Len(wire), to, from \in Node :
-        /\ MayDeliver(i, to) /\ (from = wire[i].src \/ (Spoof /\ (~Guided \/ i = Len(wire))))   \* guided: only the newest is spoofed
+        /\ MayDeliver(i, to) /\ (from = wire[i].src \/ (Spoof /\ (~Guided \/ (i = Len(wire) /\ i % 4 = 0))))   \* guided: only the newest is spoofed
         /\ Deliver(i, to, from) /\ seen' = seen \cup {i}
         /\ hist' = Append(hist, A("deliver", to, from, wire[i].m, i, "", Outcome(to, wire[i], from)))
   \/ \E n \in Senders : HasState(n) /\ Reset(n) /\ hist' = Append(hist, A("reset", n, "", "", 0, "", "")) /\ UNCHANGED seen
